@@ -993,6 +993,7 @@ func (c *Compiler) codeToOpcode(ctx *compileContext, typ *runtime.Type, code Cod
 
 func (c *Compiler) linkRecursiveCode(ctx *compileContext) {
 	recursiveCodes := map[uintptr]*CompiledCode{}
+	compiledOnDemand := false
 	// (by index: compiling a missing target below can add recursive opcodes)
 	for i := 0; i < len(*ctx.recursiveCodes); i++ {
 		recursive := (*ctx.recursiveCodes)[i]
@@ -1006,6 +1007,7 @@ func (c *Compiler) linkRecursiveCode(ctx *compileContext) {
 				whole.isRecursive = false
 				codes = whole.ToOpcode(ctx)
 				codes.Last().Next = newEndOp(ctx, recursive.Type)
+				compiledOnDemand = true
 			}
 		}
 		if recursiveCode, ok := recursiveCodes[typeptr]; ok {
@@ -1066,5 +1068,16 @@ func (c *Compiler) linkRecursiveCode(ctx *compileContext) {
 		}
 
 		recursiveCodes[typeptr] = compiled
+	}
+	if compiledOnDemand {
+		// a program compiled on demand uses slots behind those of the program it was compiled for, and
+		// recursive opcodes inside it share the CurLen of opcodes outside it: every frame of this
+		// compilation starts behind every slot any of its programs can use
+		bound := uintptr(ctx.ptrIndex) + 4
+		for _, recursive := range *ctx.recursiveCodes {
+			if recursive.Jmp.CurLen < bound {
+				recursive.Jmp.CurLen = bound
+			}
+		}
 	}
 }
